@@ -108,6 +108,17 @@ def check_targets(x, lab, bad, backend, ordered=True, loose=False):
             return len(r1) == len(r2)
         return _rows_same(r1, r2, ordered)
 
+    # ColExpr.export of aggregate / window expressions must see the table's grouping (it equals the mutate column)
+    num = next((c for c in x if H.types_mod.without_const(c.dtype()) in (pdt.Int64(), pdt.Float64())), None)
+    if num is not None and not loose:
+        for ename, mk in (("sum", lambda: num.sum()), ("count", lambda: num.count()), ("expr", lambda: num.max() - num), ("plain_expr", lambda: num * 2 + 1)):
+            try:
+                want = (x >> pdt.mutate(zz__=mk()) >> pdt.ungroup() >> pdt.export(pdt.Polars()))["zz__"]
+                got = mk().export(pdt.Polars())
+            except (pdt.errors.SubqueryError, pdt.errors.NotSupportedError):
+                continue
+            if got.dtype != want.dtype or not _rows_same([(v,) for v in got.to_list()], [(v,) for v in want.to_list()], ordered and backend == "polars"):
+                bad.append(f"{lab}: ({num.name}.{ename}).export(Polars()) = {got.dtype} {got.to_list()[:6]} differs from the column mutate computes: {want.dtype} {want.to_list()[:6]}")
     x = x >> pdt.ungroup()
     base = x >> pdt.export(pdt.Polars())
     if not isinstance(base, pl.DataFrame):
